@@ -26,6 +26,10 @@ struct P<'a> {
     i: usize,
 }
 
+fn is_xml_char(c: char) -> bool {
+    matches!(c, '\t' | '\n' | '\r') || (c >= ' ' && c != '\u{fffe}' && c != '\u{ffff}')
+}
+
 fn is_name_start(c: u8) -> bool {
     c.is_ascii_alphabetic() || c == b'_' || c == b':' || c >= 0x80
 }
@@ -70,13 +74,14 @@ impl<'a> P<'a> {
             "amp" => "&".to_string(),
             "quot" => "\"".to_string(),
             "apos" => "'".to_string(),
-            b if b.starts_with("#x") => match u32::from_str_radix(&b[2..], 16).ok().and_then(char::from_u32) {
-                Some(c) => c.to_string(),
-                None => return self.err("bad character reference"),
+            // WFC Legal Character: the referenced character must itself be an XML Char (so `&#0;`, `&#1;`, `&#xFFFE;` are errors)
+            b if b.starts_with("#x") => match u32::from_str_radix(&b[2..], 16).ok().and_then(char::from_u32).filter(|c| is_xml_char(*c)) {
+                Some(c) if b[2..].bytes().all(|x| x.is_ascii_hexdigit()) => c.to_string(),
+                _ => return self.err("bad character reference"),
             },
-            b if b.starts_with('#') => match b[1..].parse::<u32>().ok().and_then(char::from_u32) {
-                Some(c) => c.to_string(),
-                None => return self.err("bad character reference"),
+            b if b.starts_with('#') => match b[1..].parse::<u32>().ok().and_then(char::from_u32).filter(|c| is_xml_char(*c)) {
+                Some(c) if b[1..].bytes().all(|x| x.is_ascii_digit()) => c.to_string(),
+                _ => return self.err("bad character reference"),
             },
             _ => return self.err("undeclared entity"),
         };
@@ -101,12 +106,152 @@ impl<'a> P<'a> {
         }
     }
     fn pi(&mut self) -> Result<(), String> {
+        // at "<?": PITarget is a Name other than (any case of) "xml"; then "?>" at once, or white space and anything up to "?>"
+        self.i += 2;
+        let target = self.name()?;
+        if target.eq_ignore_ascii_case("xml") {
+            return self.err("the XML declaration is allowed only at the very start of the document");
+        }
+        if self.starts("?>") {
+            self.i += 2;
+            return Ok(());
+        }
+        if !matches!(self.s.get(self.i), Some(b' ' | b'\t' | b'\r' | b'\n')) {
+            return self.err("white space expected after the processing instruction target");
+        }
         match self.s[self.i..].windows(2).position(|w| w == b"?>") {
             Some(e) => {
                 self.i += e + 2;
                 Ok(())
             }
             None => self.err("unterminated processing instruction"),
+        }
+    }
+    fn need_ws(&mut self) -> Result<(), String> {
+        if !matches!(self.s.get(self.i), Some(b' ' | b'\t' | b'\r' | b'\n')) {
+            return self.err("white space expected");
+        }
+        self.ws();
+        Ok(())
+    }
+    /// `Eq quoted-value` of an XML-declaration pseudo-attribute; returns the value.
+    fn pseudo_value(&mut self) -> Result<String, String> {
+        self.ws();
+        if self.s.get(self.i) != Some(&b'=') {
+            return self.err("'=' expected");
+        }
+        self.i += 1;
+        self.ws();
+        let q = match self.s.get(self.i) {
+            Some(b'"') => b'"',
+            Some(b'\'') => b'\'',
+            _ => return self.err("quoted value expected"),
+        };
+        self.i += 1;
+        let st = self.i;
+        while self.i < self.s.len() && self.s[self.i] != q {
+            self.i += 1;
+        }
+        if self.i >= self.s.len() {
+            return self.err("unterminated value");
+        }
+        let v = String::from_utf8_lossy(&self.s[st..self.i]).to_string();
+        self.i += 1;
+        Ok(v)
+    }
+    /// XMLDecl ::= '<?xml' VersionInfo EncodingDecl? SDDecl? S? '?>'   (at byte 0 only)
+    fn xml_decl(&mut self) -> Result<(), String> {
+        self.i += 5;
+        self.need_ws()?;
+        if !self.starts("version") {
+            return self.err("version expected in the XML declaration");
+        }
+        self.i += 7;
+        let v = self.pseudo_value()?;
+        let vb = v.as_bytes();
+        if !(vb.len() >= 3 && vb.starts_with(b"1.") && vb[2..].iter().all(|c| c.is_ascii_digit())) {
+            return self.err("bad version number");
+        }
+        let mut had_ws = matches!(self.s.get(self.i), Some(b' ' | b'\t' | b'\r' | b'\n'));
+        self.ws();
+        if self.starts("encoding") {
+            if !had_ws {
+                return self.err("white space expected before encoding");
+            }
+            self.i += 8;
+            let v = self.pseudo_value()?;
+            let vb = v.as_bytes();
+            if !(!vb.is_empty() && vb[0].is_ascii_alphabetic() && vb.iter().all(|c| c.is_ascii_alphanumeric() || matches!(c, b'.' | b'_' | b'-'))) {
+                return self.err("bad encoding name");
+            }
+            had_ws = matches!(self.s.get(self.i), Some(b' ' | b'\t' | b'\r' | b'\n'));
+            self.ws();
+        }
+        if self.starts("standalone") {
+            if !had_ws {
+                return self.err("white space expected before standalone");
+            }
+            self.i += 10;
+            let v = self.pseudo_value()?;
+            if v != "yes" && v != "no" {
+                return self.err("standalone must be yes or no");
+            }
+            self.ws();
+        }
+        if !self.starts("?>") {
+            return self.err("'?>' expected at the end of the XML declaration");
+        }
+        self.i += 2;
+        Ok(())
+    }
+    fn quoted_literal(&mut self, pubid: bool) -> Result<(), String> {
+        let q = match self.s.get(self.i) {
+            Some(b'"') => b'"',
+            Some(b'\'') => b'\'',
+            _ => return self.err("quoted literal expected"),
+        };
+        self.i += 1;
+        while self.i < self.s.len() && self.s[self.i] != q {
+            let c = self.s[self.i];
+            if pubid && !(c.is_ascii_alphanumeric() || b" \r\n-'()+,./:=?;!*#@$_%".contains(&c)) {
+                return self.err("character not allowed in a public identifier");
+            }
+            self.i += 1;
+        }
+        if self.i >= self.s.len() {
+            return self.err("unterminated literal");
+        }
+        self.i += 1;
+        Ok(())
+    }
+    /// doctypedecl ::= '<!DOCTYPE' S Name (S ExternalID)? S? '>'   (an internal subset is refused: this checker has no DTD support)
+    fn doctype(&mut self) -> Result<(), String> {
+        self.i += 9;
+        self.need_ws()?;
+        self.name()?;
+        let had_ws = matches!(self.s.get(self.i), Some(b' ' | b'\t' | b'\r' | b'\n'));
+        self.ws();
+        if self.starts("SYSTEM") || self.starts("PUBLIC") {
+            if !had_ws {
+                return self.err("white space expected before the external identifier");
+            }
+            let public = self.starts("PUBLIC");
+            self.i += 6;
+            self.need_ws()?;
+            if public {
+                self.quoted_literal(true)?;
+                self.need_ws()?;
+            }
+            self.quoted_literal(false)?;
+            self.ws();
+        }
+        match self.s.get(self.i) {
+            Some(b'>') => {
+                self.i += 1;
+                Ok(())
+            }
+            Some(b'[') => self.err("DOCTYPE internal subset not supported by this checker"),
+            _ => self.err("'>' expected at the end of the DOCTYPE declaration"),
         }
     }
     fn misc(&mut self) -> Result<(), String> {
@@ -232,14 +377,20 @@ impl<'a> P<'a> {
 /// Parse a whole document; Err carries the first well-formedness violation.
 pub fn parse_document(xml: &str) -> Result<Elem, String> {
     for c in xml.chars() {
-        let ok = matches!(c, '\t' | '\n' | '\r') || (c >= ' ' && c != '\u{fffe}' && c != '\u{ffff}');
-        if !ok {
+        if !is_xml_char(c) {
             return Err(format!("character U+{:04X} is not allowed in XML", c as u32));
         }
     }
     let mut p = P { s: xml.as_bytes(), i: 0 };
+    if p.starts("<?xml") && matches!(p.s.get(5), Some(b' ' | b'\t' | b'\r' | b'\n')) {
+        p.xml_decl()?;
+    }
     p.misc()?;
     if p.starts("<!DOCTYPE") {
+        p.doctype()?;
+        p.misc()?;
+    }
+    if false {
         // no internal subset expected: up to the closing '>'
         let mut depth = 0;
         loop {
@@ -292,5 +443,12 @@ mod tests {
         assert!(parse_document("<a></b>").is_err());
         assert!(parse_document("<a/><b/>").is_err());
         assert!(parse_document("<a b='1' b='2'/>").is_err());
+        assert!(parse_document("<a b='&#0;'/>").is_err());
+        assert!(parse_document("<a>&#x1;</a>").is_err());
+        assert!(parse_document("<a>&#x41;&#65;</a>").is_ok());
+        assert!(parse_document("<?xml version=\"1.<0\"?><a/>").is_err());
+        assert!(parse_document("<?xml version='1.0' encoding='UTF-8' standalone='no' ?><a/>").is_ok());
+        assert!(parse_document("<!DOCTYPE a PUBLIC \"-//x&y//EN\" \"u\"><a/>").is_err());
+        assert!(parse_document("<a><?xml version='1.0'?></a>").is_err());
     }
 }
